@@ -130,13 +130,32 @@ def _random(rnd):
             up = upstream(i)
             # (an event that fails inside the simulator task is fatal: keep 'bad' blocks out)
             b['fb'] = [s for s in b['fb'] if s not in up and not blocks[s - 1].get('bad')]
-    order = list(range(1, ns + nc + 1))
+    # equal-but-not-identical values (5 vs 5.0): blocks that produce them (mixf) and blocks
+    # that can tell them apart (typ); only identity / typ / mixf consumers see such values
+    fsrc = None
+    if valued and rnd.random() < 0.4:
+        fsrc = len(blocks) + 1
+        blocks.append(_s(f'i{fsrc}', rnd.randint(0, 3)))
+        sel = len(blocks) + 1
+        blocks.append(_s(f'i{sel}', rnd.randint(0, 1)))
+        base = len(blocks)
+        blocks.append(_c(f'c{base + 1}', 'mixf', [{'t': 'blk', 'x': fsrc}, {'t': 'name', 'x': sel}]))
+        blocks.append(_c(f'c{base + 2}', 'typ', [{'t': rnd.choice(['blk', 'name']), 'x': base + 1}]))
+        blocks.append(_c(f'c{base + 3}', 'id', [{'t': 'name', 'x': base + 1}]))
+        blocks.append(_c(f'c{base + 4}', 'typ', [{'t': 'blk', 'x': rnd.choice([base + 3, fsrc])}]))
+    order = list(range(1, len(blocks) + 1))
     if rnd.random() < .5:
         rnd.shuffle(order)
     bursts = []
     for _ in range(rnd.randint(3, 30) if rnd.random() < .3 else rnd.randint(2, 8)):
         burst = []
         for _ in range(rnd.choice([1, 1, 2, 3])):
+            if fsrc and rnd.random() < 0.5:
+                if rnd.random() < 0.5:
+                    burst.append((fsrc + 1, 'put', rnd.randint(0, 1)))
+                else:
+                    burst.append((fsrc, rnd.choice(['put', 'putf']), rnd.randint(0, 3)))
+                continue
             s = rnd.randint(1, ns)
             if blocks[s - 1]['src'] == 'counter':
                 burst.append((s, rnd.choice(['inc', 'dec', 'reset']), 0))
